@@ -1866,8 +1866,20 @@ def append_loop(vn, s, st):
     if not isinstance(s, ast.For) or s.orelse:
         return None
     accs = []
+    assigned_so_far = set()
     for b in s.body:
         if isinstance(b, ast.Assign) and all(isinstance(t, ast.Name) for t in b.targets):
+            # a plain temporary is written before it is read in every iteration; a name that is read first (it carries a value from the
+            # previous iteration or from before the loop, like `vec = vec[n:]`) makes the loop more than a comprehension
+            reads = {x.id for x in ast.walk(b.value) if isinstance(x, ast.Name)}
+            for t in b.targets:
+                if t.id in reads and t.id not in assigned_so_far:
+                    return None
+                if t.id in st.env and t.id not in assigned_so_far and any(
+                        isinstance(x, ast.Name) and x.id == t.id and isinstance(x.ctx, ast.Load)
+                        for prev in s.body[:s.body.index(b)] for x in ast.walk(prev)):
+                    return None
+            assigned_so_far |= {t.id for t in b.targets}
             continue
         if isinstance(b, ast.Expr) and isinstance(b.value, ast.Call) and isinstance(b.value.func, ast.Attribute) and b.value.func.attr == "append" \
                 and len(b.value.args) == 1 and not b.value.keywords:
